@@ -110,7 +110,8 @@ class Repo(object):
         if not hasattr(self, "_assigned_attrs"):
             import glob
             names = set()
-            for path in glob.glob(os.path.join(self.root, "toasty", "**", "*.py"), recursive=True):
+            pkg = os.path.join(self.root, "toasty")
+            for path in glob.glob(os.path.join(pkg if os.path.isdir(pkg) else self.root, "**", "*.py"), recursive=True):
                 if os.sep + "tests" + os.sep in path:
                     continue
                 try:
